@@ -556,7 +556,7 @@ class Sugar:
 
     # -------------------------------------------------------------------------------- iterator pipelines
     LAZY = {"map": "val", "filter": "ref", "filter_map": "val", "take_while": "ref", "map_while": "val", "inspect": "ref", "skip_while": "ref"}
-    CONSUMERS = {"find": "ref", "find_map": "val", "any": "val", "all": "val", "for_each": "val", "position": "val"}
+    CONSUMERS = {"find": "ref", "find_map": "val", "any": "val", "all": "val", "for_each": "val", "position": "val", "try_for_each": "val"}
 
     def chain_of(self, op, depth=12):
         """Walks back from an iterator operand through `&mut it`, moves, `into_iter`, `by_ref` and the
@@ -723,6 +723,25 @@ class Sugar:
                     test = B.block([], B.switch(M(c), [0], [head.new() if nm == "any" else hit], hit if nm == "any" else head.new(), op_ty="bool"))
                     return self.call_closure(B, clo, [M(v)], P(c), test, dep, stack)
                 end = lambda: to(B.use(B.const_bool(nm == "all")))
+            elif nm == "try_for_each":
+                # loop { r = f(x); match r { Ok(()) / Some(()) => continue, Err(e) / None => break r } } ; Ok(())
+                dty = t.get("dest_ty") or "?"
+                is_res = dty.startswith("std::result::Result")
+                adt = RESULT if is_res else OPTION
+
+                def on_item(v, head):
+                    rloc = B.local(dty)
+                    stop = to(B.use(M(rloc)))
+                    st = []
+                    # Result: Ok = 0, Err = 1 ; Option: None = 0, Some = 1
+                    arms = {0: head.new(), 1: stop} if is_res else {0: stop, 1: head.new()}
+                    term = self._switch_enum(B, st, rloc, adt, dty, arms)
+                    sw = B.block(st, term)
+                    return self.call_closure(B, clo, [M(v)], P(rloc), sw, dep, stack)
+                if is_res:
+                    end = lambda: to(B.agg(RESULT, "Ok", 0, [B.const_unit()]))
+                else:
+                    end = lambda: to(B.agg(OPTION, "Some", 1, [B.const_unit()]))
             elif nm == "for_each":
                 def on_item(v, head):
                     u = B.local("()")
